@@ -110,6 +110,11 @@ func (s *netStub) GetVertex(ctx context.Context, in *pb.SignedHash, _ ...grpc.Ca
 // vnetPipeSize: buffer of the notary -> gossip hand-over (800 in cmd/node)
 var vnetPipeSize uint16 = 100
 
+// vnetCacheMB: size of each node's awaiting-transaction cache. Networks that are reused for hundreds of items
+// need room (capacity eviction is outside the properties); the many short-lived scenario networks do not, and
+// their caches count against the process' memory limit until the collector gets to them.
+var vnetCacheMB = 64
+
 func newVnet(c *Ctx, n int, adj [][]int, honest []bool, isTrx bool) *vnet {
 	w := NewWorld(c)
 	w.quiet = true
@@ -127,7 +132,7 @@ func newVnet(c *Ctx, n int, adj [][]int, honest []bool, isTrx bool) *vnet {
 		}
 	}
 	for i := 0; i < n; i++ {
-		hc, err := cache.New(1000, 1024)
+		hc, err := cache.New(1000, vnetCacheMB)
 		if err != nil {
 			panic(err)
 		}
@@ -301,7 +306,7 @@ func (v *vnet) expectSends(m qmsg) int {
 
 // waitFresh blocks until the origin loop (a goroutine reading the pipe) has handed at least n messages to the stubs.
 func (v *vnet) waitFresh(n int) {
-	for i := 0; i < 20000; i++ {
+	for i := 0; i < 300000; i++ { // up to 30 s: only ever reached when sends are really missing or the machine is badly overloaded
 		v.mux.Lock()
 		k := len(v.fresh)
 		v.mux.Unlock()
@@ -777,7 +782,9 @@ func init() {
 			worst := 0
 			// one network, a new item per round (the duplicate-suppression memory is keyed by the item)
 			adj := [][]int{{1}, {0, 2, 3}, {1}, {1}}
+			vnetCacheMB = 1024 // one network, hundreds of items
 			v := newVnet(c, 4, adj, []bool{true, true, true, true}, isTrx)
+			vnetCacheMB = 64
 			v.silent = true
 			for r := 0; r < rounds; r++ {
 				v.queue = nil
